@@ -282,6 +282,12 @@ def run_cbmc(job, info, witness=False):
         res['why'] = 'cbmc gave no result: ' + txt[-1500:]
         return res
     res['props'] = len(results)
+    if any(p.get('status') in ('ERROR', 'UNKNOWN') for p in results) or any(isinstance(x, dict) and x.get('cProverStatus') == 'error' for x in doc):
+        # the decision procedure gave no verdict (e.g. the external SAT solver died under the memory limit: CBMC then ends with VERIFICATION ERROR and marks properties
+        # ERROR/UNKNOWN).  That is neither a pass nor a counterexample: undecided.  (Found late: it made the cjson string jobs look like failures with an empty counterexample.)
+        res['status'] = 'undecided'
+        res['why'] = 'cbmc ended without a verdict (VERIFICATION ERROR / property status ERROR or UNKNOWN): solver failure, typically the memory limit'
+        return res
     failed = []
     for p in results:
         if p['status'] not in ('SUCCESS',):
